@@ -18,7 +18,7 @@
    (0 <= excess < 2^31).  The refutation was about code that no longer exists and is gone; the witnesses stay in
    corpus/C02 and C02_huge_excess_exact states the repaired behaviour on them. *)
 From Coq Require Import ZArith NArith List.
-From BHS Require Import Work Store Chain ChainSpec ChainMain Merkle MerkleProofs.
+From BHS Require Import Work Store Chain ChainSpec ChainInv ChainMain Merkle MerkleProofs.
 Import ListNotations.
 Open Scope Z_scope.
 
@@ -114,6 +114,57 @@ Theorem C02_huge_excess_exact :
   verify1 s 2 (-1) (9%N, 3) = Invalid.
 Proof. exact huge_excess_exact. Qed.
 
+(* ------------------------------------------------------------------------------------------------------------
+   ANY WORK VALUES.  The theorems above are stated under [Valid] (reachable_valid: positive-work histories).  Their proofs
+   only use that the LONGEST_CHAIN rows are exactly [chain s tip] for a connected tip, i.e.
+       Structural s := exists tip, Inv s tip        (BHS.MerkleProofs)
+   which ChainFields.reachable_inv proves for EVERY history, zero-work headers included (C02_reachable_structural).
+   So the verdict theorems hold on every reachable store.  What genuinely needs [best] / Inv2 - that the tip is the
+   greatest-cumulative-work header, i.e. that "the longest chain" is the specification's best path - are
+   C02_tracks_chain and C02_verdict_is_spec only; they stay positive-work (C01's zero-work finding lives there).
+   ------------------------------------------------------------------------------------------------------------ *)
+Theorem C02_reachable_structural : forall f gid gpl hs, gid <> 0%N -> nonzero_ids hs -> Structural (run f gid gpl hs).
+Proof. exact reachable_structural. Qed.
+
+Theorem C02_tip_height_is_tip_any_work : forall s, Structural s -> exists t, tipB s = Some t /\ tip_height s = Some (height t).
+Proof. exact structural_tip_height. Qed.
+
+Theorem C02_longest_unique_per_height_any_work : forall s, Structural s -> forall a b, In a s -> In b s ->
+  st a = Longest -> st b = Longest -> height a = height b -> a = b.
+Proof. exact structural_longest_unique. Qed.
+
+Theorem C02_verdict_confirmed_iff_any_work : forall s tipH excess rt h x, Structural s ->
+  (verify1 s tipH excess (rt, h) = Confirmed x <->
+   exists r, In r s /\ st r = Longest /\ height r = h /\ root r = rt /\ id r = x).
+Proof. exact structural_confirmed_iff. Qed.
+
+Theorem C02_verdict_unable_iff_any_work : forall s tipH excess rt h, Structural s -> tip_height s = Some tipH ->
+  (verify1 s tipH excess (rt, h) = UnableToVerify <-> tipH < h <= tipH + excess).
+Proof. exact structural_unable_iff. Qed.
+
+Theorem C02_invalid_otherwise_any_work : forall s tipH excess rt h, Structural s -> tip_height s = Some tipH ->
+  (verify1 s tipH excess (rt, h) = Invalid <->
+   ~ (exists r, In r s /\ st r = Longest /\ height r = h /\ root r = rt) /\ ~ (tipH < h <= tipH + excess)).
+Proof. exact structural_invalid_otherwise. Qed.
+
+Theorem C02_negative_excess_any_work : forall s tipH excess rt h, Structural s -> tip_height s = Some tipH ->
+  excess < 0 -> verify1 s tipH excess (rt, h) <> UnableToVerify.
+Proof. exact structural_negative_excess. Qed.
+
+Theorem C02_response_any_work : forall s excess items, Structural s -> items <> [] ->
+  exists tipH, tip_height s = Some tipH /\
+               verify s excess items = VOk (overall (answers s tipH excess items)) (answers s tipH excess items).
+Proof. exact structural_verify_total. Qed.
+
+(* C02_length_and_order and C02_overall_is_max above hold for ANY store already (no hypothesis on s). *)
+
+(* satisfiable on a zero-work history (the zero-work child 3 of the tip is the tip, C01's finding): *)
+Theorem C02_example_zero_work :
+  Structural (run [] 1 ex_gpl ex_zero) /\
+  verify (run [] 1 ex_gpl ex_zero) 1 [(103%N, 2); (104%N, 1); (102%N, 1); (9%N, 3); (9%N, 4)] =
+    VOk OInvalid [(103%N, 2, Confirmed 3); (104%N, 1, Invalid); (102%N, 1, Confirmed 2); (9%N, 3, UnableToVerify); (9%N, 4, Invalid)].
+Proof. exact ex_zero_structural. Qed.
+
 Print Assumptions C02_tip_height_is_tip.
 Print Assumptions C02_longest_unique_per_height.
 Print Assumptions C02_verdict_confirmed_iff.
@@ -128,3 +179,12 @@ Print Assumptions C02_verdict_is_spec.
 Print Assumptions C02_example_valid.
 Print Assumptions C02_example_reorg.
 Print Assumptions C02_huge_excess_exact.
+Print Assumptions C02_reachable_structural.
+Print Assumptions C02_tip_height_is_tip_any_work.
+Print Assumptions C02_longest_unique_per_height_any_work.
+Print Assumptions C02_verdict_confirmed_iff_any_work.
+Print Assumptions C02_verdict_unable_iff_any_work.
+Print Assumptions C02_invalid_otherwise_any_work.
+Print Assumptions C02_negative_excess_any_work.
+Print Assumptions C02_response_any_work.
+Print Assumptions C02_example_zero_work.
